@@ -427,6 +427,10 @@ func c11OverSending(shape string, d int, probeDl bool) cwScenario {
 		}
 		s = append(s, open)
 		unread := d % 4
+		if shape == "stream-unread-badmd-rstfail" {
+			// the undecodable metadata must be on the FIRST response (only then the client aborts): the unread bodies follow it
+			s = append(s, Step{Op: "peer", Env: &EnvSpec{Call: 0, Hdr: "bad", Body: i64(35), Trl: "none"}})
+		}
 		for i := 0; i < unread; i++ {
 			s = append(s, Step{Op: "peer", Env: bodyEnv(0, int64(30+i))})
 		}
@@ -441,10 +445,7 @@ func c11OverSending(shape string, d int, probeDl bool) cwScenario {
 		case "stream-unread-deadline-rstfail":
 			s = append(s, Step{Op: "tick", D: 700})
 		case "stream-unread-badmd-rstfail":
-			for i := 0; i < unread; i++ {
-				s = append(s, Step{Op: "recv", C: 0})
-			}
-			s = append(s, Step{Op: "peer", Env: &EnvSpec{Call: 0, Hdr: "bad", Body: i64(35), Trl: "none"}}, Step{Op: "recv", C: 0})
+			s = append(s, Step{Op: "recv", C: 0})
 		}
 		s = append(s, Step{Op: "wfail", B: 0})
 		further := 2 + d/4
